@@ -16,7 +16,7 @@ from mc.ref.calendar import RefCalendar
 TOGGLES = [
     "res15", "res10", "eff03", "eff15", "wkend", "leave", "vac", "limr", "limg", "limt", "gap", "prio", "alapE", "pin",
     "sc3", "sub", "month", "tz", "hours", "long", "r5", "deep", "dst", "rev", "shutdown", "night", "limmin", "many", "onstart", "cprio",
-    "tfirst", "allocrev", "inrev", "vac2",
+    "tfirst", "allocrev", "inrev", "vac2", "dup", "nest",
 ]
 LAST = ("rev", "inrev")   # toggles that permute what the others built: applied last
 FIRST = ("month", "dst")   # toggles that move the window: applied first, dated attributes follow the window
@@ -196,6 +196,22 @@ def apply(spec, tg, n):
         # days off of one kind written latest-first (project vacations, one resource's leaves)
         spec.setdefault("vacations", []).extend([(_day(spec, 30), _day(spec, 32)), (_day(spec, 16), None)])
         _res(spec, "r2").setdefault("leaves", []).extend([{"k": "leaves", "type": "annual", "a": _day(spec, 24)}, {"k": "leaves", "type": "annual", "a": _day(spec, 3)}])
+    elif tg == "dup":
+        # every allocate / depends / precedes / limits / leaves / vacation statement of the project is written TWICE (stating something
+        # again changes nothing); the resources and the container that carry limits state them in the second copy as well
+        spec["dup2"] = True
+        _res(spec, "r4").setdefault("limits", {"dailymax": "6h"})
+        _res(spec, "r2").setdefault("leaves", []).append({"k": "leaves", "type": "annual", "a": _day(spec, 17)})
+        spec.setdefault("vacations", []).append((_day(spec, 22), None))
+    elif tg == "nest":
+        # days off inside, touching and overlapping other days off of the same kind (project vacations; the leaves of r2 and r3)
+        spec.setdefault("vacations", []).extend([(_day(spec, 14), _day(spec, 21)), (_day(spec, 15), None), (_day(spec, 16), _day(spec, 18)),
+                                                 (_day(spec, 21), _day(spec, 23)), (_day(spec, 22), _day(spec, 25))])
+        for rid in ("r2", "r3"):
+            _res(spec, rid).setdefault("leaves", []).extend([{"k": "leaves", "type": "annual", "a": _day(spec, 28), "b": _day(spec, 36)},
+                                                             {"k": "leaves", "type": "sick", "a": _day(spec, 29)},
+                                                             {"k": "vacation", "a": _day(spec, 31), "b": _day(spec, 33)},
+                                                             {"k": "leaves", "type": "special", "a": _day(spec, 35), "b": _day(spec, 38)}])
     elif tg == "rev":
         spec["tasks"].reverse()   # dependents are declared before what they wait for (ties: declaration order)
     elif tg == "deep":
@@ -230,7 +246,7 @@ def universe(tier):
 
 TOGGLES7 = ["res30", "res15", "res10", "effhalf", "wkend", "leave", "vac", "limr", "limg", "limt", "gap", "prio", "pin", "month", "tz",
             "hours", "long", "r5", "deep", "dst", "rev", "shutdown", "night", "limmin", "many", "onstart", "cprio",
-            "tfirst", "allocrev", "inrev", "vac2"]
+            "tfirst", "allocrev", "inrev", "vac2", "dup", "nest"]
 
 
 def to_spec7(item):
@@ -283,6 +299,9 @@ def universe9(tier):
                 for m in (30, 600):
                     for pos in ("first", "mid", "last"):
                         yield {"kind": "wide9", "wb": {"b": b, "t": list(ts)}, "in": {"m": m, "res": res, "pos": pos}}
+                # the added task repeats the id of an existing task that has dependents (a copy-pasted block, declared last): references
+                # keep meaning the first task of that name, so still nothing depends on the added one
+                yield {"kind": "wide9", "wb": {"b": b, "t": list(ts)}, "in": {"m": 600, "res": res, "pos": "last", "dup": "F" if b == 0 else "S"}}
                 # the added task inherits its (lowest) priority from a container of its own
                 yield {"kind": "wide9", "wb": {"b": b, "t": list(ts)}, "in": {"m": 600, "res": res, "pos": "first", "wrap": True}}
 
@@ -291,7 +310,7 @@ def specs9(item):
     b = to_spec(item["wb"])
     w = copy.deepcopy(b)
     i = item["in"]
-    t = {"id": "zz", "effort": i["m"], "alloc": [i["res"]], "prio": 1}
+    t = {"id": i.get("dup") or "zz", "effort": i["m"], "alloc": [i["res"]], "prio": 1}
     if i.get("wrap"):
         t = {"id": "bg", "prio": 1, "children": [{"id": "zz", "effort": i["m"], "alloc": [i["res"]]}]}
     w["tasks"].insert({"first": 0, "mid": len(w["tasks"]) // 2}.get(i["pos"], len(w["tasks"])), t)
@@ -435,6 +454,6 @@ def sweep(ctx, st, prop):
 
 
 NOTE = ("'wide' family (all members with the compiled extensions, the members with <= 1 toggle - thorough <= 2 - again on the pure-Python fallbacks): 2 ten-task base projects (3-level task and resource trees, team, alternative, milestone, container edges, "
-        "window across the year boundary) x every subset of <= 2 (thorough: <= 3) of 34 feature toggles (resolution 15/10 min, efficiency "
+        "window across the year boundary) x every subset of <= 2 (thorough: <= 3) of 36 feature toggles (resolution 15/10 min, efficiency "
         "0.3/1.5, weekend-only resource, leaves, vacation, resource/group/task limits, gaps, priorities, ALAP task, container pin, third "
-        "scenario, sub-slot efforts, month boundary, time zone, split hours, multi-week effort, fifth resource, 5-level nesting, a window across two daylight-saving switches with zoned seven-day resources, reversed declaration order, a five-week project vacation, a Sunday-to-Thursday night shift, limits in minutes that are no round number of hours, eleven or more top-level tasks, an on-start edge followed by a plain edge, priorities inherited from containers, the task tree written before the resources, team members listed in the opposite order, children and depends entries in the opposite order, days off written latest-first)")
+        "scenario, sub-slot efforts, month boundary, time zone, split hours, multi-week effort, fifth resource, 5-level nesting, a window across two daylight-saving switches with zoned seven-day resources, reversed declaration order, a five-week project vacation, a Sunday-to-Thursday night shift, limits in minutes that are no round number of hours, eleven or more top-level tasks, an on-start edge followed by a plain edge, priorities inherited from containers, the task tree written before the resources, team members listed in the opposite order, children and depends entries in the opposite order, days off written latest-first, every list-like statement written twice, days off nested in / touching / overlapping each other)")
